@@ -41,8 +41,9 @@ Accepted subset (anything else raises TranslateError with file:line):
              on such a list as long as it has not been aliased;  if / elif / else
              (what follows a conditional is translated into both branches; `if v:` on a
              None-or-int v is ExpandRt.if_truthy: the then-branch runs for an int != 0,
-             the else-branch for None and for 0);  for x in e  (e a list of str, or a
-             str: its characters; no else; e is evaluated once, before the loop);
+             the else-branch for None and for 0);  for x in e / for i, x in enumerate(e)
+             (e a list of str, or a str: its characters; no else; e is evaluated once,
+             before the loop; i is an int);
              the generator idiom
                  g = m.next_guess()
                  while g is not None:
@@ -496,6 +497,9 @@ class FunctionTranslator:
                 add(t.id)
             elif isinstance(t, ast.Attribute) and self.is_self_attr(t):
                 pass          # checked where the statement is translated
+            elif isinstance(t, ast.Tuple) and all(isinstance(x, ast.Name) for x in t.elts):
+                for x in t.elts:      # accepted as the target of `for i, x in enumerate(...)` only
+                    add(x.id)
             else:
                 self.fail(t, "unsupported assignment target")
 
@@ -774,7 +778,7 @@ class FunctionTranslator:
             vals.append(self.coerce(node, n, env.types[n], entry[n]))
         return vals[0] if len(vals) == 1 else "(" + ", ".join(vals) + ")"
 
-    def loop(self, s, head, binder, body, rest, env, inner, k, ind, skip=()):
+    def loop(self, s, head, binder, body, rest, env, inner, k, ind, skip=(), prologue=None):
         names, tup, pat, entry = self.loop_state(s, body, env, skip)
         for n in names:
             if n != "printed":
@@ -787,6 +791,8 @@ class FunctionTranslator:
                    lambda n, t, ty: "Return (%s)" % k.ret(n, t, ty),
                    lambda e: "Return (%s)" % k.exc(e))
         out = self.line(ind, "%s (fun %s %s =>" % (head, binder, pat), s)
+        if prologue:
+            out += self.line(ind + 2, prologue)
         out += _close(self.block(body, inner, body_k, ind + 2), ")")
         # after the loop: the carried variables have their entry types; freshness only survives
         # if the body kept it
@@ -800,30 +806,53 @@ class FunctionTranslator:
     def for_(self, s, rest, env, k, ind):
         if s.orelse:
             self.fail(s, "for ... else")
-        if not isinstance(s.target, ast.Name):
+        it, pos = s.iter, None
+        if isinstance(it, ast.Call) and isinstance(it.func, ast.Name) and it.func.id == "enumerate":
+            # for pos, x in enumerate(e)
+            if len(it.args) != 1 or it.keywords or isinstance(it.args[0], ast.Starred):
+                self.fail(s, "enumerate is supported with one argument only")
+            if not (isinstance(s.target, ast.Tuple) and len(s.target.elts) == 2
+                    and all(isinstance(t, ast.Name) for t in s.target.elts)):
+                self.fail(s, "enumerate needs the target `pos, item`")
+            pos, x = s.target.elts[0].id, s.target.elts[1].id
+            if pos == x:
+                self.fail(s, "loop variables collide")
+            it = it.args[0]
+        elif isinstance(s.target, ast.Name):
+            x = s.target.id
+        else:
             self.fail(s, "unsupported loop target")
-        x = s.target.id
-        self.check_name(s, x)
+        loop_vars = (x,) if pos is None else (pos, x)
+        for v in loop_vars:
+            self.check_name(s, v)
         pre = []
-        l, tl = self.expr(s.iter, env, pre)        # evaluated once, before the loop
+        l, tl = self.expr(it, env, pre)        # evaluated once, before the loop
         if tl == STRLIST:
             seq = _paren(l)
         elif tl == STR:
             seq = "(chars %s)" % _paren(l)
         else:
             self.fail(s, "loop over a value of type %s" % tl)
-        if isinstance(s.iter, ast.Name) and s.iter.id in self.assigned(s.body):
+        touched = self.assigned(s.body)
+        if isinstance(it, ast.Name) and it.id in touched:
             self.fail(s, "the iterated list is assigned or mutated in the loop")
-        if x in env.types:
-            self.fail(s, "the loop variable %r is already bound" % x)
         inner = env.copy()
+        for v in loop_vars:
+            if v in env.types:
+                self.fail(s, "the loop variable %r is already bound" % v)
+            # the loop variables are per iteration; they must not be assigned in the body
+            if v in touched:
+                self.fail(s, "the loop variable is assigned in the loop")
+            inner.fresh.discard(v)
         inner.types[x] = STR
-        inner.fresh.discard(x)
-        # the loop variable itself is per iteration; it must not be assigned in the body
-        if x in self.assigned(s.body):
-            self.fail(s, "the loop variable is assigned in the loop")
         text = self.opens(pre, k, ind, s)
-        text += self.loop(s, "for_each %s" % seq, x, list(s.body), rest, env, inner, k, ind, skip=(x,))
+        if pos is None:
+            text += self.loop(s, "for_each %s" % seq, x, list(s.body), rest, env, inner, k, ind, skip=loop_vars)
+        else:
+            # the position is a Python int: KernelRt.for_enum counts in nat
+            inner.types[pos] = INT
+            text += self.loop(s, "for_enum %s" % seq, "%s'n %s" % (pos, x), list(s.body), rest, env, inner, k, ind,
+                              skip=loop_vars, prologue="let %s := Z.of_nat %s'n in" % (pos, pos))
         return self.wrap(pre, text)
 
     def generator_loop(self, a, w, rest, env, k, ind):
